@@ -78,6 +78,17 @@ class Env:
             return d
 
 
+class MaybeStale:
+    """A local first assigned inside a loop body, read at an arbitrary iteration or after the loop."""
+    def __init__(self, name):
+        self.name = name
+
+    def sym_read(self, I, name):
+        if not I.e.branch(I.e.bool(f'{self.name}_bound'), f'{self.name} bound?'):
+            I.raise_('UnboundLocalError', self.name)
+        return SymObj('<stale>', name=self.name)
+
+
 class LoopSpec:
     """Inductive invariant for one loop, keyed by (function qualname, ordinal).
 
@@ -1012,11 +1023,15 @@ class Interp:
             return [v.get(i) for i in range(v.length())]
         if hasattr(v, 'sym_iter_concrete'):
             return v.sym_iter_concrete(self)
+        if v is None or isinstance(v, (int, float, bool)) or is_sym_int(v) or isinstance(v, z3.BoolRef):
+            self.raise_('TypeError', 'object is not iterable')
         self.unsupported(node, f'concrete iteration over {v!r}')
 
     def as_view(self, v, node=None):
         if isinstance(v, View):
             return v
+        if v is None or isinstance(v, (int, float, bool)) or is_sym_int(v) or isinstance(v, z3.BoolRef):
+            self.raise_('TypeError', 'object is not iterable')
         if isinstance(v, (list, tuple)):
             return conc_view(list(v))
         if isinstance(v, dict):
@@ -1147,6 +1162,10 @@ class Interp:
         if isinstance(fv, ClassRef):
             return self.construct(fv, args, kwargs, node)
         if isinstance(fv, Closure):
+            if self.reg and getattr(fv.node, 'name', None):
+                hook = self.reg._closures.get(fv.node.name)
+                if hook:
+                    return hook(self, fv, args, kwargs)
             return self.call_closure(fv, args, kwargs)
         if isinstance(fv, ModuleRef):
             if self.reg:
@@ -1557,7 +1576,13 @@ class Interp:
         def bi_set(i, a, k):
             if not a:
                 return set()
-            items = i.iter_concrete(a[0])
+            try:
+                items = i.iter_concrete(a[0])
+            except Unsupported:
+                h = i.reg.set_hook(a[0]) if i.reg else None
+                if h:
+                    return h(i, a[0])
+                raise
             if all(is_concrete(x) for x in items):
                 return set(items)
             if i.reg:
@@ -2057,10 +2082,13 @@ class Interp:
             if nm in spec.carried:
                 env.set(nm, spec.carried[nm](self, env))
                 continue
-            if not env.has(nm):
+            if not env.has(nm) or env.lookup(nm) is UNDEF:
+                # first assigned inside the loop: at an arbitrary iteration it is either still
+                # unbound or holds the value of an earlier iteration
+                env.set(nm, MaybeStale(nm))
                 continue
             cur = env.lookup(nm)
-            if cur is UNDEF:
+            if isinstance(cur, MaybeStale):
                 continue
             nv = self.havoc_value(nm, cur)
             if nv is None:
